@@ -357,6 +357,15 @@ impl<'tcx> Cx<'tcx> {
                 }
                 J::Arr(v)
             }
+            ty::Adt(def, _) if def.is_enum() && def.variants().iter().all(|v| v.fields.is_empty()) && size > 0 && size <= 16 => {
+                // field-less enum stored as its tag
+                let bytes = alloc.inspect_with_uninit_and_ptr_outside_interpreter((off as usize)..((off + size) as usize));
+                let mut v: u128 = 0;
+                for (i, b) in bytes.iter().enumerate() {
+                    v |= (*b as u128) << (8 * i);
+                }
+                obj(vec![("enum_bits", J::UInt(v)), ("adt", s(self.path(def.did())))])
+            }
             ty::Adt(def, args) if def.is_struct() => {
                 let mut v = vec![];
                 for (i, f) in def.non_enum_variant().fields.iter().enumerate() {
@@ -533,7 +542,8 @@ impl<'tcx> Cx<'tcx> {
             if u.promoted.is_none() {
                 v.push(("const_ref", s(self.path(u.def))));
             } else {
-                v.push(("promoted", J::Bool(true)));
+                v.push(("promoted", J::UInt(u.promoted.unwrap().as_usize() as u128)));
+                v.push(("promoted_owner", s(self.path(u.def))));
             }
         }
         let env = TypingEnv::post_analysis(tcx, owner);
@@ -912,6 +922,10 @@ fn dump(tcx: TyCtxt<'_>) {
         }
         let body = tcx.optimized_mir(did);
         let bj = cx.body(did, body);
+        let mut proms = vec![];
+        for pb in tcx.promoted_mir(did).iter() {
+            proms.push(cx.body(did, pb));
+        }
         let info = if matches!(kind, DefKind::Closure) { obj(vec![("kind", s("closure"))]) } else { impl_info(&mut cx, did) };
         let vis = if matches!(kind, DefKind::Fn | DefKind::AssocFn) { format!("{:?}", tcx.visibility(did)) } else { String::new() };
         let name = if matches!(kind, DefKind::Closure) { "{closure}".to_string() } else { tcx.item_name(did).as_str().to_string() };
@@ -926,6 +940,7 @@ fn dump(tcx: TyCtxt<'_>) {
                 ("parent_fn", parent_fn),
                 ("span", cx.loc(tcx.def_span(did))),
                 ("mir", bj),
+                ("promoted", J::Arr(proms)),
             ]),
         ));
     }
